@@ -431,6 +431,16 @@ func checkAddrTables(r *Run, rc *RuleCtx, le *linEval, tn string, xored bool, ad
 		if len(cs) == 2 && cs[1] && cs[2] {
 			okFam = true
 		}
+		// the family is dispatched some other way (a lookup table with a bounds guard, ordered comparisons): decided
+		// by splitting on the family value - which values reach a success return, and with which address length
+		var fc *familyCases
+		if !okFam {
+			fc = familyCaseSplit(p, g, famCall, ipF)
+			if fc != nil && fc.acceptsExactly(1, 2) {
+				okFam = true
+				rc.Instance(tn+"|reader family by case split", true, map[string]interface{}{"accepted_families": fc.accepted(), "ip_length_by_family": fc.lens})
+			}
+		}
 		// address length selected by family == 2
 		okSel := false
 		eachInstr(g, func(b *ssa.BasicBlock, i int, in ssa.Instruction) {
@@ -458,6 +468,10 @@ func checkAddrTables(r *Run, rc *RuleCtx, le *linEval, tn string, xored bool, ad
 				}
 			}
 		})
+		bySplit := false
+		if !okSel && fc != nil && fc.lenIs(1, 4) && fc.lenIs(2, 16) {
+			okSel, bySplit = true, true
+		}
 		if !okSel {
 			bad(g, "reader address length", "the address length must be 16 for family 0x02 and 4 for family 0x01")
 		}
@@ -496,6 +510,9 @@ func checkAddrTables(r *Run, rc *RuleCtx, le *linEval, tn string, xored bool, ad
 				return
 			}
 			nSucc++
+			if bySplit {
+				return // the case split has established the length of the last IP store per family on every success path
+			}
 			if st != 1 && !rep[ret] {
 				rep[ret] = true
 				rc.ViolationPath(g, instrPos(ret), tn+": destination IP length", "on this success path the destination IP is not resliced to (or made with) the length selected by the family: decoding an IPv4 address into a value that held an IPv6 address yields a 16-byte result (a different address)", c.Witness(g, ret))
@@ -786,6 +803,29 @@ func checkUnknownAttrs(r *Run, rc *RuleCtx, le *linEval, add *ssa.Function) {
 				// outside the loop: only the reset to length 0 that precedes it
 				if zeroLenValue(st.Val, 0) {
 					return
+				}
+				// or the list as the loop built it in a local: the loop's own accumulator (empty on entry, extended
+				// only by the loop's appends)
+				if ph, isPhi := st.Val.(*ssa.Phi); isPhi {
+					for _, lp := range gl {
+						if ph.Block() != lp.Header {
+							continue
+						}
+						okAcc := len(ph.Edges) > 0
+						for k, e := range ph.Edges {
+							if lp.Body[ph.Block().Preds[k]] {
+								ap, isAp := e.(*ssa.Call)
+								if !isAp || !isBuiltinCall(ap, "append") || ap.Call.Args[0] != ssa.Value(ph) {
+									okAcc = false
+								}
+							} else if !zeroLenValue(e, 0) {
+								okAcc = false
+							}
+						}
+						if okAcc {
+							return
+						}
+					}
 				}
 				rc.Violation(g, instrPos(st), "UNKNOWN-ATTRIBUTES list changed outside the loop", "the decoded list is cut or extended after the entries were read: a list produced by an independent encoder does not read back entry for entry")
 			})
@@ -1402,7 +1442,11 @@ func checkSetterAccept(r *Run, rc *RuleCtx, cl *closures) {
 		for _, x := range ref {
 			allowed[x] = true
 		}
-		_ = listed
+		if !listed {
+			// a typed setter that carries the length check itself instead of delegating it: which limit it enforces
+			// for which attribute type is decided by C06.limits / C09.limits
+			allowed["overflow"] = true
+		}
 		for i, g := range gs {
 			cls := setterRejectClass(p, g)
 			_ = i
@@ -1561,8 +1605,35 @@ func checkGetterAccept(r *Run, rc *RuleCtx, cl *closures, getM *ssa.Function) {
 		gs := rejectGuardsOf(p, fn)
 		// a family test rejects together with the family tests that lead to it (an if-chain or a switch in
 		// any order): the class is the set of family codes that were ruled out
+		var famSplit *familyCases
+		famTried := false
 		classOf := func(g rejectGuard) string {
 			cls := getterRejectClass(p, g, getM)
+			if strings.HasPrefix(cls, "other:") || strings.HasPrefix(cls, "family ") && !strings.HasPrefix(cls, "family != ") {
+				// a test of the family in another form (table lookup, ordered comparison): the class is the set of
+				// families that can still reach a success return
+				if fam := familyValueOf(fn, getM); fam != nil && dependsOnlyOnFamily(p, g.Cond, fam) {
+					if !famTried {
+						famTried = true
+						if n := p.Named("MappedAddress"); n != nil {
+							famSplit = familyCaseSplit(p, fn, fam, FieldVar(n, "IP"))
+						}
+						if famSplit == nil {
+							if n := p.Named("XORMappedAddress"); n != nil {
+								famSplit = familyCaseSplit(p, fn, fam, FieldVar(n, "IP"))
+							}
+						}
+					}
+					if famSplit != nil {
+						var ks []string
+						for _, k := range famSplit.accepted() {
+							ks = append(ks, fmt.Sprint(k))
+						}
+						return "family not in {" + strings.Join(ks, ",") + "}"
+					}
+				}
+				return cls
+			}
 			if !strings.HasPrefix(cls, "family != ") {
 				return cls
 			}
@@ -1725,4 +1796,314 @@ func checkValueFresh(r *Run, rc *RuleCtx, le *linEval, cl *closures, add *ssa.Fu
 			}
 		})
 	}
+}
+
+// ---------------------------------------------------------------------------
+// family case split: a getter's dependence on the 16-bit family code decided by folding the code to each
+// value of a small domain (the two valid codes, their neighbours, an arbitrary other value and the maximum).
+
+type familyCases struct {
+	domain  []int64
+	success map[int64]bool
+	lens    map[int64][]int64 // family -> lengths of the last IP store on success paths (-1: not evaluable)
+	undec   bool
+}
+
+func (fc *familyCases) accepted() []int64 {
+	var out []int64
+	for _, k := range fc.domain {
+		if fc.success[k] {
+			out = append(out, k)
+		}
+	}
+	return out
+}
+
+func (fc *familyCases) acceptsExactly(ks ...int64) bool {
+	if fc.undec {
+		return false
+	}
+	want := map[int64]bool{}
+	for _, k := range ks {
+		want[k] = true
+	}
+	for _, k := range fc.domain {
+		if fc.success[k] != want[k] {
+			return false
+		}
+	}
+	return true
+}
+
+func (fc *familyCases) lenIs(k, n int64) bool {
+	ls := fc.lens[k]
+	if len(ls) == 0 {
+		return false
+	}
+	for _, l := range ls {
+		if l != n {
+			return false
+		}
+	}
+	return true
+}
+
+// familyEval evaluates an integer expression over the family code (fam = k), constants and read-only
+// package-level arrays.
+func familyEval(p *Prog, c *PathCtx, fam ssa.Value, k int64, v ssa.Value, depth int) (int64, bool) {
+	if depth > 10 || v == nil {
+		return 0, false
+	}
+	if c != nil {
+		v = c.Resolve(v)
+	}
+	if v == fam {
+		return k, true
+	}
+	if cv, ok := constInt(v); ok {
+		return cv, true
+	}
+	switch x := v.(type) {
+	case *ssa.Convert:
+		iv, ok := familyEval(p, c, fam, k, x.X, depth+1)
+		if !ok {
+			return 0, false
+		}
+		if w, signed, okW := intWidth(x.Type()); okW && w < 64 {
+			if !signed {
+				iv &= (1 << uint(w)) - 1
+			} else {
+				sh := uint(64 - w)
+				iv = iv << sh >> sh
+			}
+		}
+		return iv, true
+	case *ssa.ChangeType:
+		return familyEval(p, c, fam, k, x.X, depth+1)
+	case *ssa.BinOp:
+		a, ok1 := familyEval(p, c, fam, k, x.X, depth+1)
+		b, ok2 := familyEval(p, c, fam, k, x.Y, depth+1)
+		if !ok1 || !ok2 {
+			return 0, false
+		}
+		switch x.Op {
+		case token.ADD:
+			return a + b, true
+		case token.SUB:
+			return a - b, true
+		case token.MUL:
+			return a * b, true
+		}
+	case *ssa.UnOp:
+		if x.Op == token.MUL {
+			if ia, ok := x.X.(*ssa.IndexAddr); ok {
+				if gl, isG := ia.X.(*ssa.Global); isG {
+					t := p.readOnlyGlobalTables()[gl]
+					if t == nil || t.length < 0 {
+						return 0, false
+					}
+					idx, okI := familyEval(p, c, fam, k, ia.Index, depth+1)
+					if !okI || idx < 0 || idx >= t.length {
+						return 0, false
+					}
+					e, have := t.entries[fmt.Sprint(idx)]
+					if !have {
+						e = t.zero
+					}
+					if e == nil {
+						return 0, false
+					}
+					iv, exact := constant.Int64Val(e)
+					return iv, exact
+				}
+			}
+		}
+	case *ssa.Phi:
+		var out int64
+		for i, e := range x.Edges {
+			ev, ok := familyEval(p, c, fam, k, e, depth+1)
+			if !ok || i > 0 && ev != out {
+				return 0, false
+			}
+			out = ev
+		}
+		return out, len(x.Edges) > 0
+	}
+	return 0, false
+}
+
+// dependsOnlyOnFamily: cond is a comparison both sides of which familyEval can evaluate and one of which
+// mentions the family.
+func dependsOnlyOnFamily(p *Prog, cond ssa.Value, fam ssa.Value) bool {
+	for {
+		u, ok := cond.(*ssa.UnOp)
+		if !ok || u.Op != token.NOT {
+			break
+		}
+		cond = u.X
+	}
+	bo, ok := cond.(*ssa.BinOp)
+	if !ok {
+		return false
+	}
+	_, ok1 := familyEval(p, nil, fam, 1, bo.X, 0)
+	_, ok2 := familyEval(p, nil, fam, 1, bo.Y, 0)
+	if !ok1 || !ok2 {
+		// a value merged from family-dependent sources (ipLen := 0; if guard { ipLen = table[family] }) is only
+		// evaluable on a path: accept when the operands mention nothing but the family, constants and tables
+		return mentionsFamily(bo.X, fam, 0) || mentionsFamily(bo.Y, fam, 0)
+	}
+	return mentionsFamily(bo.X, fam, 0) || mentionsFamily(bo.Y, fam, 0)
+}
+
+func mentionsFamily(v ssa.Value, fam ssa.Value, depth int) bool {
+	if depth > 10 || v == nil {
+		return false
+	}
+	if v == fam {
+		return true
+	}
+	switch x := v.(type) {
+	case *ssa.Convert:
+		return mentionsFamily(x.X, fam, depth+1)
+	case *ssa.ChangeType:
+		return mentionsFamily(x.X, fam, depth+1)
+	case *ssa.BinOp:
+		return mentionsFamily(x.X, fam, depth+1) || mentionsFamily(x.Y, fam, depth+1)
+	case *ssa.UnOp:
+		if ia, ok := x.X.(*ssa.IndexAddr); ok {
+			return mentionsFamily(ia.Index, fam, depth+1)
+		}
+		return mentionsFamily(x.X, fam, depth+1)
+	case *ssa.Phi:
+		for _, e := range x.Edges {
+			if mentionsFamily(e, fam, depth+1) {
+				return true
+			}
+		}
+	}
+	return false
+}
+
+// familyValueOf: the 16-bit value read at bytes [0:2) of the attribute value (Get's first result).
+func familyValueOf(fn *ssa.Function, getM *ssa.Function) ssa.Value {
+	var out ssa.Value
+	eachInstr(fn, func(b *ssa.BasicBlock, i int, in ssa.Instruction) {
+		c, ok := in.(*ssa.Call)
+		if !ok {
+			return
+		}
+		name, _, buf, okA := accessorCall(c)
+		if !okA || name != "Uint16" {
+			return
+		}
+		sl, isSl := buf.(*ssa.Slice)
+		if !isSl {
+			return
+		}
+		lo, hi := int64(0), int64(-1)
+		if sl.Low != nil {
+			lo, _ = constInt(sl.Low)
+		}
+		if sl.High != nil {
+			hi, _ = constInt(sl.High)
+		}
+		if lo == 0 && hi == 2 && out == nil {
+			out = c
+		}
+	})
+	return out
+}
+
+func familyCaseSplit(p *Prog, g *ssa.Function, fam ssa.Value, ipF *types.Var) *familyCases {
+	if fam == nil || g == nil {
+		return nil
+	}
+	idx := errorResultIndex(g)
+	if idx < 0 {
+		return nil
+	}
+	fc := &familyCases{domain: []int64{0, 1, 2, 3, 4, 0x21, 0xFFFF}, success: map[int64]bool{}, lens: map[int64][]int64{}}
+	for _, k := range fc.domain {
+		kk := k
+		q := &PathQuery{P: p, Fn: g, MaxStates: 20000}
+		q.Fold = func(cond ssa.Value, c *PathCtx) (bool, bool) {
+			pol := true
+			for {
+				u, ok := cond.(*ssa.UnOp)
+				if !ok || u.Op != token.NOT {
+					break
+				}
+				pol = !pol
+				cond = u.X
+			}
+			bo, ok := cond.(*ssa.BinOp)
+			if !ok || !(mentionsFamily(bo.X, fam, 0) || mentionsFamily(bo.Y, fam, 0)) {
+				return false, false
+			}
+			a, ok1 := familyEval(p, c, fam, kk, bo.X, 0)
+			b, ok2 := familyEval(p, c, fam, kk, bo.Y, 0)
+			if !ok1 || !ok2 {
+				return false, false
+			}
+			var r bool
+			switch bo.Op {
+			case token.EQL:
+				r = a == b
+			case token.NEQ:
+				r = a != b
+			case token.LSS:
+				r = a < b
+			case token.LEQ:
+				r = a <= b
+			case token.GTR:
+				r = a > b
+			case token.GEQ:
+				r = a >= b
+			default:
+				return false, false
+			}
+			return r == pol, true
+		}
+		q.Step = func(in ssa.Instruction, deferred bool, st uint64, c *PathCtx) (uint64, bool) {
+			s, ok := in.(*ssa.Store)
+			if !ok || ipF == nil {
+				return st, false
+			}
+			if fa, isFA := s.Addr.(*ssa.FieldAddr); !isFA || fieldOfAddr(fa) != ipF {
+				return st, false
+			}
+			var lv ssa.Value
+			switch x := s.Val.(type) {
+			case *ssa.Slice:
+				if x.Low == nil && x.High != nil {
+					lv = x.High
+				}
+			case *ssa.MakeSlice:
+				lv = x.Len
+			}
+			if lv != nil {
+				if n, okN := familyEval(p, c, fam, kk, lv, 0); okN && n >= 0 && n < 1<<20 {
+					return uint64(n) + 2, false
+				}
+			}
+			return 1, false
+		}
+		q.AtReturn = func(ret *ssa.Return, st uint64, c *PathCtx) {
+			if c.NilState(ret.Results[idx]) == -1 {
+				return
+			}
+			fc.success[kk] = true
+			l := int64(-1)
+			if st >= 2 {
+				l = int64(st - 2)
+			}
+			fc.lens[kk] = append(fc.lens[kk], l)
+		}
+		q.Run()
+		if q.Exhausted {
+			fc.undec = true
+		}
+	}
+	return fc
 }
